@@ -188,9 +188,9 @@ func writeCaseFile(name, id, test string, c interface{}, f *Failure) {
 
 // Prop describes one generated check.
 type Prop[C any] struct {
-	ID   string                 // property id, e.g. "C03"
-	Gen  func(t *rapid.T) C     // draws a Case (all randomness lives here)
-	Exec func(c C) *Failure     // runs the Case against the real code; nil = property held
+	ID   string                     // property id, e.g. "C03"
+	Gen  func(t *rapid.T) C         // draws a Case (all randomness lives here)
+	Exec func(c C) *Failure         // runs the Case against the real code; nil = property held
 	NT   func(c C) (bool, []string) // non-triviality rule + labels for the distribution
 }
 
